@@ -166,6 +166,13 @@ Fixpoint eval (s : core) (x : thr) (c : cnd) : bool :=
   | COr a b => eval s x a || eval s x b
   end.
 
+(* the class of value a non-delegating return hands back *)
+Inductive rvk :=
+| KNil          (* nil *)
+| KErr          (* a stream-creation error *)
+| KCtxErr       (* the status error of the ended context *)
+| KCallCtx.     (* cs.ctx *)
+
 Inductive why := WNilStream | WUnlockUnlocked | WWaitUnlocked.
 
 Inductive label :=
@@ -173,7 +180,7 @@ Inductive label :=
 | LTau (t : tid)
 | LCreate (t : tid) (withmsg ok : bool)
 | LDeleg (t : tid) (m : meth) (same : bool)
-| LRet (t : tid) (r : retk)
+| LRet (t : tid) (r : retk) (v : rvk)
 | LPanic (t : tid) (w : why)      (* Go panics / dies *)
 | LForeignUnlock (t : tid)        (* Unlock of a mutex held by another thread (Go allows it) *)
 | LUnsupported (t : tid)          (* outside the model: a second watcher goroutine *)
@@ -184,6 +191,15 @@ Definition wake (x : thr) : thr :=
 
 Definition wake_all (s : core) : core :=
   set_thr (set_thr (set_thr s T0 (wake (th0 s))) T1 (wake (th1 s))) TW (wake (thw s)).
+
+Definition ret_value (s : core) (x : thr) (r : retk) : rvk :=
+  match r with
+  | RNil => KNil
+  | RLocalErr => if lerr x then KErr else KNil
+  | RInitErr => if err s then KErr else KNil
+  | RCtxErr => if cdone s then KCtxErr else KNil   (* FromContextError(nil).Err() = nil *)
+  | RCallCtx => KCallCtx
+  end.
 
 (* end of a call: the thread is idle again, locals are forgotten *)
 Definition finish (t : tid) : thr :=
@@ -232,7 +248,7 @@ Definition exec (P : prog) (s : core) (t : tid) (x : thr) (i : instr) (k : list 
       | _, _ => [(LUnsupported t, set_thr s t (set_st x TDead))]
       end
   | IAwaitDone => if cdone s then [(LTau t, cont s x)] else []
-  | IReturn r => [(LRet t r, set_thr s t (finish t))]
+  | IReturn r => [(LRet t r (ret_value s x r), set_thr s t (finish t))]
   | IDelegate m same =>
       if stream s then [(LDeleg t m same, set_thr s t (finish t))]
       else [(LPanic t WNilStream, set_thr s t (set_st x TDead))]
@@ -254,7 +270,7 @@ Definition thr_next (P : prog) (s : core) (t : tid) : list (label * core) :=
   let x := get_thr s t in
   match st x with
   | TIdle => map (fun m => (LCall t m, start_call P s t m)) (calls_of t)
-  | TRun [] => [(LRet t RNil, set_thr s t (finish t))]       (* falling off the end of a body *)
+  | TRun [] => [(LRet t RNil KNil, set_thr s t (finish t))]       (* falling off the end of a body *)
   | TRun (i :: k) => exec P s t x i k
   | TWoken k =>
       match mu s with
@@ -278,7 +294,7 @@ Definition internal (l : label) : bool :=
 
 Definition label_tid (l : label) : option tid :=
   match l with
-  | LCall t _ | LTau t | LCreate t _ _ | LDeleg t _ _ | LRet t _ | LPanic t _
+  | LCall t _ | LTau t | LCreate t _ _ | LDeleg t _ _ | LRet t _ _ | LPanic t _
   | LForeignUnlock t | LUnsupported t => Some t
   | LCancel => None
   end.
